@@ -98,8 +98,10 @@ def _aldor(build, args, cwd, timeout, env, cpu_limit=None):
         return vlib.aldor(build, args, cwd, timeout=timeout, env=env)
     cmd = ["prlimit", "--cpu=%d:%d" % (cpu_limit, cpu_limit + 5), build["aldor"]] + vlib.ALDOR_BASE_ARGS + list(args)
     rc, out, err, to = vlib.run(cmd, cwd=cwd, timeout=timeout, env=env)
-    if rc is not None and rc in (-24, -9, 128 + 24, 128 + 9) and not to:
-        to = True          # SIGXCPU (soft limit) or SIGKILL (hard limit)
+    # the compiler handles SIGXCPU (soft limit) itself: "Exceeded time limit imposed by operating system", exit 1;
+    # SIGKILL arrives at the hard limit
+    if not to and (b"Exceeded time limit imposed by operating system" in out + err or (rc is not None and rc in (-24, -9))):
+        to = True
     return rc, out, err, to
 
 
@@ -133,7 +135,7 @@ def java_emit(build, prog, workdir, qlevel=None, extra_args=(), timeout=60, env=
     d = _jobdir(prog, "java", workdir, qlevel, extra_args)
     unit = java_unit(prog, qlevel, extra_args)
     with open(os.path.join(d, unit + ".as"), "w") as fh:
-        fh.write(render.render(prog))
+        fh.write(prog.get("source_text") or render.render(prog))
     q = ["-Q%s" % qlevel] if qlevel is not None else []
     rc, out, err, to = _aldor(build, DIALECT_ARGS[dialect_of(prog)] + q + list(extra_args) + ["-Jmain", "-Fjava", unit + ".as"],
                               d, timeout, env, cpu_limit)
@@ -185,7 +187,7 @@ def run_program(build, prog, route, workdir, qlevel=None, extra_args=(), timeout
     d = _jobdir(prog, route, workdir, qlevel, extra_args)
     src = os.path.join(d, "p.as")
     with open(src, "w") as fh:
-        fh.write(render.render(prog))
+        fh.write(prog.get("source_text") or render.render(prog))
     q = DIALECT_ARGS[dialect_of(prog)] + (["-Q%s" % qlevel] if qlevel is not None else [])
     if route == "interp":
         rc, out, err, to = _aldor(build, q + list(extra_args) + ["-Ginterp", "p.as"], d, timeout, env, cpu_limit)
